@@ -76,6 +76,13 @@ impl<'a> QState<'a> {
             self.inter.insert(key);
         }
         let prop: &'static str = if self.mac == QMacro::IterDestroy { "C07" } else { "C06" };
+        // the documented alias: inside the closure `MatchedArchetype` is the archetype of the entity
+        // being visited
+        if v.matched != ((ent >> 32) & 0xFF) as u8 {
+            vio(prop, "matched-archetype-alias", format!("{}: MatchedArchetype::ARCHETYPE_ID is {} while visiting {:#x}", self.site.name, v.matched, ent));
+            self.failed = true;
+            return Step::Break;
+        }
         let (arch, pos) = match self.m.ents.get(&ent) {
             Some(r) => match self.site.matches.iter().position(|x| *x == r.arch) {
                 Some(p) => (r.arch, p),
